@@ -41,7 +41,7 @@ pub proof fn lemma_exit_mismatch(p: Comps, b: Comps, ki: int, c: Comps)
 //@ obligation lemma_exit_base_done props=C16
 //@ obligation lemma_exit_mismatch props=C16
 
-//@ item relative file=src/sys/fs/path.rs fn=relative props=C16,C12,C10,C09,C20
+//@ item relative file=src/sys/fs/path.rs fn=relative props=C16,C12,C10,C09,C20,C01
 //@ sig pub fn relative<T: AsRef<Path>, U: AsRef<Path>>(path: T, base: U) -> RvResult<PathBuf>
 //@ rw R1 * ⟦if path != base {⟧ => ⟦if path.ne(base) {⟧
 //@ rw R9 1 ⟦let mut comps: Vec<Component> = vec![];⟧ => ⟦let mut comps: Vec<Component> = Vec::new();⟧
